@@ -21,6 +21,7 @@ type ConsumerInit struct {
 	BlocksPerTx int64
 	ConnID      string
 	Revision    *uint64 // default: revision parsed from the chain id
+	Historical  int64   // historical entries the consumer keeps (default: the module default, 10000)
 }
 
 func (ci ConsumerInit) Params(chainID string) *providertypes.ConsumerInitializationParameters {
@@ -36,6 +37,9 @@ func (ci ConsumerInit) Params(chainID string) *providertypes.ConsumerInitializat
 	}
 	if ci.CcvTimeout != 0 {
 		p.CcvTimeoutPeriod = ci.CcvTimeout
+	}
+	if ci.Historical != 0 {
+		p.HistoricalEntries = ci.Historical
 	}
 	if ci.XferTimeout != 0 {
 		p.TransferTimeoutPeriod = ci.XferTimeout
